@@ -3,6 +3,7 @@ package rules
 import (
 	"fmt"
 	"go/ast"
+	"go/token"
 	"go/types"
 
 	"rocheck/internal/check"
@@ -156,6 +157,21 @@ func ruleBoundedQueue() check.Rule {
 					} else {
 						c.Violation(key, capExpr.Pos(), "the hand-off channel's capacity is %s, not the operator's size parameter: the producer may run ahead of the consumer by more (or less) than configured", types.ExprString(capExpr))
 					}
+				}
+				// the queue is received from in one place only: the range loop of the consumer. Any other receive (`<-ch`
+				// into a local batch) is a second, hidden buffer in front of the consumer
+				extra := 0
+				ast.Inspect(sc.Lit.Body, func(n ast.Node) bool {
+					if u, ok := n.(*ast.UnaryExpr); ok && u.Op == token.ARROW {
+						if id, _ := rootIdent(u.X); id != nil && objOf(info, id) == chanVar {
+							extra++
+							c.Violation(fmt.Sprintf("%s/extra-receive#%d", name, extra), u.Pos(), "the hand-off queue is also received from outside the consumer's range loop: the items taken here wait in a second buffer, so the producer runs ahead of the consumer by more than the configured capacity")
+						}
+					}
+					return true
+				})
+				if extra == 0 && name == "ro.detachOn" {
+					c.OK(name+"/single-receive", sc.Lit.Pos(), "the queue is only received from by the consumer's range loop")
 				}
 				// no slice/list queue written from upstream slots
 				// sends: one per slot kind, all to chanVar; in terminal slots the send precedes the close
@@ -312,13 +328,89 @@ func C08() *check.Property {
 		Title:    "Backpressure: Next returns after downstream is done; queues are bounded FIFO",
 		Patterns: cat(CorePatterns, PluginPkgs, []string{PromPkg}, RatePkgs),
 		Scope:    []string{ro},
-		Rules:    []check.Rule{ruleSyncEmission(), ruleBoundedQueue(), ruleLockRegion(), ruleCoreDelivers()},
+		Rules:    []check.Rule{ruleSyncEmission(), ruleBoundedQueue(), ruleLockRegion(), ruleCoreDelivers(), ruleNoDowngrade(), ruleIncorporateBeforeDecide()},
 		Explanation: "Static who-may-use check of asynchrony constructs. From the model of every subscribe closure: a value emission whose context has a goroutine or timer-callback ancestor, or an upstream slot that sends into a channel, is allowed only in creation operators " +
 			"(no upstream) and in the documented hand-off/time-shift operators; everywhere else the emission provably runs inside the upstream's callback, i.e. on the producer's goroutine before its Next returns. For detachOn/ToChannel the queue is one channel whose capacity " +
 			"operand is the size parameter, all three slots go through it, terminal notifications are queued before the close, the consumer ranges over it and the notification dispatcher maps kind k to callback k. The blocking (not dropping) producer lock is checked by LOCK-REGION.",
 		NotDecided:  "the numeric bound 'capacity + 1' at run time (follows from Go channel semantics given the premises); Delay's queue, which is unbounded by its own TODO and not in the property's list of bounded hand-offs.",
 		Assumptions: []string{"Go channel semantics (FIFO, capacity)", "user callbacks do not start goroutines themselves"},
 		Floors:      map[string]int{"operators_with_upstream": 100, "delivering_methods": 3},
-		Controls:    map[string]string{"zz_verif_controls_c08.go": roControl(controlsC08)},
+		Controls:    map[string]string{"zz_verif_controls_c08.go": roControl(controlsC08), "zz_verif_controls_c02.go": roControl(controlsC02)},
+	}
+}
+
+
+// INCORPORATE-BEFORE-DECIDE: the value is part of the state before the state decides what to emit.
+func ruleIncorporateBeforeDecide() check.Rule {
+	return check.Rule{
+		Name: "INCORPORATE-BEFORE-DECIDE",
+		Doc:  "in the next callback of an upstream observer, when the callback stores (something derived from) its value into captured state X and sends a notification under a condition that reads X (a buffer that is flushed when full), the store precedes the condition on every path: otherwise the output that this value gives rise to is not delivered by the time Next returns, but one value later (or at completion, or never when an error follows)",
+		Run: func(c *check.Ctx) {
+			m := c.M
+			n := 0
+			for _, sc := range m.SCs {
+				armed := c.Armed(sc)
+				info := sc.Pkg.TypesInfo
+				for _, s := range sc.SubSites {
+					if s.Observer == nil || s.Observer.Kind != model.AVObserver {
+						continue
+					}
+					sl := s.Observer.Slots[model.SlotNext]
+					if sl == nil || sl.Lit == nil {
+						continue
+					}
+					prm := model.FlattenParams(info, sl.Lit.Type.Params)
+					if len(prm) == 0 || prm[len(prm)-1] == nil {
+						continue
+					}
+					writes, _ := stateWritesOfValue(info, sl.Lit, prm[len(prm)-1])
+					if len(writes) == 0 {
+						continue
+					}
+					ast.Inspect(sl.Lit.Body, func(x ast.Node) bool {
+						if l, ok := x.(*ast.FuncLit); ok && l != sl.Lit {
+							return false
+						}
+						ifs, ok := x.(*ast.IfStmt)
+						if !ok {
+							return true
+						}
+						// does the guarded block (or its else) emit to the destination?
+						emits := false
+						for _, e := range sc.Emits {
+							if e.ToDest && ifs.Pos() <= e.Node.Pos() && e.Node.End() <= ifs.End() {
+								emits = true
+							}
+						}
+						if !emits {
+							return true
+						}
+						for obj, wnode := range writes {
+							reads := false
+							ast.Inspect(ifs.Cond, func(y ast.Node) bool {
+								if id, ok := y.(*ast.Ident); ok && objOf(info, id) == obj {
+									reads = true
+								}
+								return !reads
+							})
+							if !reads {
+								continue
+							}
+							n++
+							key := fmt.Sprintf("%s/next/decides-on-%s", s.Key, obj.Name())
+							if pathsPassBefore(sl.Lit.Body, ifs.Cond, func(nd ast.Node) bool { return nd.Pos() <= wnode.Pos() && wnode.End() <= nd.End() }) {
+								if armed {
+									c.OK(key, ifs.Pos(), "the value is stored into %s before the condition that reads it", obj.Name())
+								}
+							} else {
+								c.Report(armed, key, ifs.Pos(), "the emission is decided by a condition on %s, but the value of this notification is stored into %s only afterwards: what this value completes (a full buffer) is delivered one notification late", obj.Name(), obj.Name())
+							}
+						}
+						return true
+					})
+				}
+			}
+			c.Inc("state_guarded_emissions", n)
+		},
 	}
 }
